@@ -50,9 +50,11 @@ type srtRendering struct {
 	ColorQuote int    `json:"color_quote"` // 0 double, 1 single, 2 none (when the value allows)
 	Carry      bool   `json:"carry"`       // keep emphasis open across runs and lines instead of closing after each run
 	Unterm     bool   `json:"unterminated"`
-	NBSPEntity bool   `json:"nbsp_entity"` // write U+00A0 as &nbsp;
-	AmpLiteral bool   `json:"amp_literal"` // leave '&' unescaped where that is unambiguous
-	LongHours  bool   `json:"long_hours"`  // unused marker (hours >= 100 come from the model)
+	NBSPEntity bool   `json:"nbsp_entity"`         // write U+00A0 as &nbsp;
+	CoordSep   string `json:"coord_sep,omitempty"` // white space between the end time and the coordinates
+	TagLines   bool   `json:"tag_lines,omitempty"` // tags ahead of a line's first run are written on a line of their own
+	AmpLiteral bool   `json:"amp_literal"`         // leave '&' unescaped where that is unambiguous
+	LongHours  bool   `json:"long_hours"`          // unused marker (hours >= 100 come from the model)
 }
 
 func fmtSRTTime(ms int64, sep string, digits int) string {
@@ -137,7 +139,11 @@ func renderSRT(d srtDoc, r srtRendering) []byte {
 		}
 		tl := fmtSRTTime(cue.Start, r.Sep, r.FracDigits) + r.PadL + "-->" + r.PadR + fmtSRTTime(cue.End, r.Sep, r.FracDigits)
 		if r.Coords {
-			tl += " X1:100 X2:600 Y1:050 Y2:100"
+			sep := r.CoordSep
+			if sep == "" {
+				sep = " "
+			}
+			tl += sep + "X1:100 X2:600 Y1:050 Y2:100"
 		}
 		emit(tl)
 		cur := srtRun{} // style currently open
@@ -176,6 +182,11 @@ func renderSRT(d srtDoc, r srtRendering) []byte {
 				if run.U && !cur.U {
 					lb.WriteString(tag("<u>"))
 					cur.U = true
+				}
+				if r.TagLines && ri == 0 && lb.Len() > 0 {
+					// the tags that open (or close) emphasis ahead of this line sit on a line of their own
+					emit(lb.String())
+					lb.Reset()
 				}
 				lb.WriteString(escapeSRT(run.Text, r))
 				lastOfCue := li == len(cue.Lines)-1 && ri == len(ln)-1
@@ -416,6 +427,8 @@ func genSRTRendering(t *rapid.T) srtRendering {
 		Carry:      rapid.Bool().Draw(t, "carry"),
 		Unterm:     rapid.Bool().Draw(t, "unterm"),
 		NBSPEntity: rapid.Bool().Draw(t, "nbspent"),
+		CoordSep:   rapid.SampledFrom([]string{" ", " ", "\t", "  ", " \t"}).Draw(t, "coordsep"),
+		TagLines:   rapid.IntRange(0, 3).Draw(t, "taglines") == 0,
 		AmpLiteral: rapid.Bool().Draw(t, "amplit"),
 	}
 	nb := rapid.IntRange(1, 3).Draw(t, "nblank")
